@@ -1137,6 +1137,16 @@ func verifC02CheckMsg(m DHCPv6, want []byte) {
 		return
 	}
 	verifEqMsg(m, back)
+	// C20 on whole messages with typed, nested options: readers change nothing, repeated calls agree,
+	// results handed out earlier stay as they were (relay chains up to depth 3: the deeper ones
+	// multiply paths without adding a reader)
+	depth := 0
+	for cur := back; cur != nil && cur.IsRelay() && depth < 9; depth++ {
+		cur, _ = DecapsulateRelay(cur)
+	}
+	if depth <= 3 {
+		verifC20MsgReaders(back)
+	}
 	verifReach("end")
 }
 
@@ -1307,5 +1317,6 @@ func VerifC02Nested(depth int) {
 		return
 	}
 	verifEqMsg(cur, back)
+	verifC20MsgReaders(back)
 	verifReach("end")
 }
